@@ -8,11 +8,11 @@ cd /repo || exit 2
 if [ -n "$(git status --porcelain)" ]; then echo "repo tree not clean" >&2; exit 2; fi
 git apply "$PATCH" || { echo "patch does not apply" >&2; exit 2; }
 cd /verif
-VERIF_NO_EVIDENCE=1 VERIF_MIN_BUDGET=${VERIF_MIN_BUDGET:-20} ./check "$PROP" "$TIER" > /tmp/run_mutant.$$.log 2>&1
+VERIF_NO_EVIDENCE=1 VERIF_MIN_BUDGET=${VERIF_MIN_BUDGET:-20} ./check "$PROP" "$TIER" > /verif/target/run_mutant.$$.log 2>&1
 RC=$?
 git -C /repo checkout -- . 
-grep -E "violation class|quick:|thorough:|harness" /tmp/run_mutant.$$.log | head -12
-grep -m3 "^VIOLATION" /tmp/run_mutant.$$.log
-rm -f /tmp/run_mutant.$$.log
+grep -E "violation class|quick:|thorough:|harness" /verif/target/run_mutant.$$.log | head -12
+grep -m3 "^VIOLATION" /verif/target/run_mutant.$$.log
+rm -f /verif/target/run_mutant.$$.log
 echo "check exit code: $RC"
 [ "$RC" = 1 ]
